@@ -31,8 +31,8 @@ RULE = (
     "(variant, engine, script, schedule, observed handler sequence)"
 )
 BOUNDS = {
-    "quick": "scripts of length <=2 after the initial GO, 4-point grid, all schedule choices",
-    "thorough": "scripts of length <=3 after the initial GO, 4-point grid, all schedule choices",
+    "quick": "scripts of length <=2 after the initial GO, 4-point grid, all schedule choices; sync threads: caller leaving / re-entering while the invoked child machine finishes, <=1 preemption and <=2 non-default choices",
+    "thorough": "scripts of length <=3 after the initial GO, 4-point grid, all schedule choices; sync threads: <=1-2 preemptions, <=3 non-default choices",
 }
 ASSUMPTIONS = [
     "service duration 0.25 virtual seconds; grid {0.125, 0.25, 0.3125, 0.5}",
@@ -321,10 +321,16 @@ def run_one(variant, engine, script, prefix=None, tier="quick"):
     return results, n, capped
 
 
+# variant -> ((preemptions, deviations) quick, thorough)
+PREEMPT = {"cancel": ((1, 2), (2, 3)), "cancel-go": ((1, 2), (1, 3)), "self-reenter": ((1, 2), (1, 3))}
+
+
 def units(tier: str) -> List[Any]:
     maxlen = 2 if tier == "quick" else 3
     sc = scripts(maxlen)
     us = []
+    for pv, (bq, bt) in PREEMPT.items():
+        us.append(("preempt", pv, bq if tier == "quick" else bt, tier))
     for v in variants():
         for engine in ("sync", "async"):
             if not applicable(v, engine):
@@ -336,6 +342,13 @@ def units(tier: str) -> List[Any]:
 
 
 def run_unit(unit):
+    if unit[0] == "preempt":
+        from . import c09_preempt as P
+        from ..preempt import unit_result
+
+        r = unit_result("C09", P, unit[1], unit[2], lambda v: f"caller ops {P.VARIANTS[v]} at the instant the invoked child machine finishes, against its runner and timer threads")
+        r["caps"].append(f"thread slice: at most {unit[2][1]} non-default scheduling choices per execution")
+        return r
     variant, engine, batch, tier = unit
     res = dict(states=0, transitions=0, executions=0, evaluations=0, distinct=[], violations=[], samples=[], caps=[])
     if variant[0] == "child":
@@ -362,6 +375,11 @@ def run_unit(unit):
 
 
 def replay(payload):
+    if payload.get("engine") == "preempt":
+        from . import c09_preempt as P
+        from ..preempt import replay_unit
+
+        return replay_unit("C09", P, payload)
     script = [tuple(x) for x in payload["script"]]
     out = run_one(tuple(payload["variant"]), payload["engine"], script, prefix=payload["schedule"])
     vs = []
